@@ -46,7 +46,7 @@ def cleanup():
 
 
 def main():
-    ids = sys.argv[1:] or sorted(os.path.basename(d) for d in glob.glob(os.path.join(VERIF, "seeded", "*")) if os.path.isdir(d))
+    ids = sys.argv[1:] or sorted(os.path.basename(d) for d in glob.glob(os.path.join(VERIF, "seeded", "*")) if os.path.isfile(os.path.join(d, "meta.json")))
     head = sh("git -C /repo log --format=%h -1").stdout.strip()
     prepare()
     rows = []
